@@ -128,6 +128,41 @@ class MathEnv:
             m.log('events', ('esh_momentum_update', str(a[3].v))); m.log('unit_vectors', tuple(x.v for x in u))
             E.setvec(m, a[2], u); return ret(m, A.fresh('dke_%d' % k))
         vm.add_model(M('esh_momentum_update'), esh)
+        # CpuMath per-element update kernels: the *real* per-element closures of cpu_math.rs are executed for each coordinate
+        def elem_kernel(method, arrays, scalars):
+            """arrays: list of (arg index, mutable?) in the order of the closure's tuple; scalars: {capture name: value getter(a)}"""
+            def h(vm, m, c, a):
+                mir = vm.mir
+                hits = [n for n in mir.fns if n.endswith('::%s::{closure#0}::{closure#0}' % method) and 'cpu_math' in n]
+                if len(hits) != 1: raise VMError('element closure of %s: %d candidates' % (method, len(hits)))
+                cfn = mir.get(hits[0]); caps = cfn.captures()
+                vals = {}
+                for nm, get in scalars.items():
+                    if nm not in caps: raise VMError('closure of %s has no capture %s (has %s)' % (method, nm, sorted(caps)))
+                    vals[nm] = get(a)
+                if set(caps) != set(scalars): raise VMError('closure captures of %s changed: %s' % (method, sorted(caps)))
+                fields = [None] * len(caps)
+                for nm, (idx, byref) in caps.items():
+                    fields[idx] = Ref(m.alloc(vals[nm])) if byref else vals[nm]
+                clo = Ref(m.alloc(Closure(cfn.args[0][1].lstrip('&mut ').strip(), fields, None)))
+                ms = [m]
+                for i in range(d):
+                    nxt = []
+                    for m1 in ms:
+                        item = Struct([Ref(a[j].cell, a[j].path + (('i', i),)) for (j, _) in arrays])
+                        for (m2, k, v) in vm.exec_fn(m1, cfn, [clo, item]):
+                            if k != 'ret': return [(m2, k, v)]
+                            nxt.append(m2)
+                    ms = nxt
+                return [(m1, 'ret', UNIT) for m1 in ms]
+            return h
+        vm.add_model(M('array_update_variance'), elem_kernel('array_update_variance', [(1, True), (2, True), (3, False)], {'diff_scale': lambda a: a[4]}))
+        vm.add_model(M('array_update_var_inv_std_draw'), elem_kernel('array_update_var_inv_std_draw', [(2, True), (1, True), (3, False)],
+                     {'scale': lambda a: a[4], 'fill_invalid': lambda a: a[5], 'clamp__0': lambda a: a[6].f[0], 'clamp__1': lambda a: a[6].f[1]}))
+        vm.add_model(M('array_update_var_inv_std_draw_grad'), elem_kernel('array_update_var_inv_std_draw_grad', [(2, True), (1, True), (3, False), (4, False)],
+                     {'fill_invalid': lambda a: a[5], 'clamp__0': lambda a: a[6].f[0], 'clamp__1': lambda a: a[6].f[1]}))
+        vm.add_model(M('array_update_var_inv_std_grad'), elem_kernel('array_update_var_inv_std_grad', [(2, True), (1, True), (3, False)],
+                     {'fill_invalid': lambda a: a[4], 'clamp__0': lambda a: a[5].f[0], 'clamp__1': lambda a: a[5].f[1]}))
         vm.add_model(M('logp_array'), self.logp_array)
         vm.add_model(r' as LogpError>::is_recoverable$', lambda vm, m, c, a: ret(m, deref_val(vm, m, a[0]).f[0] == 'rec'))
 
